@@ -26,7 +26,13 @@
                                                          and holds the users of that secret:
                                                          whoever builds it first builds the
                                                          same thing (userlist_of)
-     pkg/haproxy/types maps.go rawhosts              -> Model/Maps.v (C04)
+     pkg/haproxy/types maps.go rawhosts              -> Model/Maps.v (C04), sorted hostnames now
+     pkg/haproxy config.go WriteFrontendMaps         -> hosts in hostname order; alias_owner
+                 SyncConfig (strict-host): hosts.ItemsAdd() -> adds the root path of each host
+                                                         to one backend: only the numbers of
+                                                         the paths inside the backend (pathNN)
+                                                         follow the map order, the rules are
+                                                         per path id (erased by the harness)
 *)
 From Coq Require Import List Bool String ZArith Ascii Permutation.
 From HI Require Import Model.Tracker Model.Conv.
